@@ -77,7 +77,9 @@ def check_case(ctx, case):
     with tempfile.TemporaryDirectory() as d:
         path = os.path.join(d, "catalog." + {"csep-csv": "csv", "zmap": "dat", "jma-csv": "csv", "ingv_horus": "txt", "ndk": "ndk"}[case["fmt"]])
         write(case, path)
-        o = call(csep.load_catalog, path, type=case["fmt"])
+        o = call(csep.load_catalog, path, type=case["fmt"], **({"format": case["format"]} if case.get("format") else {}))
+        if case.get("format"):
+            ctx.count("loaded_with_format_" + case["format"])
     fmt = case["fmt"]
     if not o.ok:
         ctx.unexpected(o, "load_catalog:" + fmt + (":single_record" if len(want) == 1 else ""))
@@ -185,6 +187,8 @@ def cases(draw, max_n=50):
         c["ncols"] = draw(st.sampled_from([10, 13]))
     if fmt == "ndk":
         c["nl"] = draw(st.booleans())
+    if draw(st.integers(0, 3)) == 0:
+        c["format"] = "csep"       # documented alternative of format='native': same records in the CSEP catalog class
     return c
 
 
